@@ -28,7 +28,9 @@ fn e2e_scenario(seed: u64, i: usize, tier: Tier) -> Outcome {
         _ => *r.pick(&cells.iter().copied().filter(|c| c.strategy == MultipathStrategy::Dublin && c.v6).collect::<Vec<_>>()),
     };
     let mut tcfg = cell.trace_cfg();
-    tcfg.initial_sequence = *r.pick(&[0u16, 33434, 64_000, 64_257, 64_510, 64_511]);
+    // (the last three are beyond what the builder accepts today: if a build accepts them, the
+    // sequence clauses are judged on the run all the same)
+    tcfg.initial_sequence = *r.pick(&[0u16, 33434, 64_000, 64_257, 64_510, 64_511, 64_511, 64_512, 64_800, 65_023]);
     tcfg.first_ttl = 1;
     tcfg.max_ttl = *r.pick(&[30u8, 254]);
     tcfg.max_inflight = 255;
@@ -61,6 +63,11 @@ fn e2e_scenario(seed: u64, i: usize, tier: Tier) -> Outcome {
     wcfg.faults.bind_in_use_pct = storm;
     let site = cell.name();
     let replay = replay_of("C07", seed, i, &tcfg, &wcfg.topo);
+    if tcfg.initial_sequence > 64_511 && tcfg.builder().build().is_err() {
+        o.count("initial_sequences_rejected_by_the_builder", 1);
+        o.nontrivial = Some(format!("{site}|init{}|rejected", tcfg.initial_sequence));
+        return o;
+    }
     let Some((world, run)) = run_guarded(&wcfg, &tcfg, false, |_| {}, &mut o, &site, &replay, &format!("scenario {i}")) else {
         return o;
     };
@@ -190,6 +197,15 @@ fn walk(init: u16, dublin6: bool, first: u16, k: u16, st: &mut WalkStats, o: &mu
                 }
                 // metric only: previous round numbers that the window test would still accept
                 st.prev_round_still_in_round += prev.iter().filter(|s| m.in_round(Sequence(**s))).count() as u64;
+                // a round that continues forward: every number of the preceding round lies below
+                // the round's first number and must not be valid in this round
+                if u32::from(s0) == u32::from(pl) + 1 {
+                    o.hit("walk_numbers_below_the_round_start_are_invalid");
+                    if let Some(bad) = prev.iter().chain([s0 - 1, s0.saturating_sub(512), 0].iter()).find(|s| **s < s0 && m.in_round(Sequence(**s))) {
+                        o.violate("walk_numbers_below_the_round_start_are_invalid", site, format!("init {init}: round starts at {s0}, but {bad} (below it, used in the preceding round or earlier) is still accepted as in-round"), replay.clone());
+                        return;
+                    }
+                }
             }
             if dublin6 {
                 o.hit("walk_dublin_ipv6_payload_fits");
